@@ -15,7 +15,8 @@ if r.returncode != 0:
     print(r.stderr); sys.exit(1)
 out = r.stdout
 # split on lines starting with '@name' 
-chunks = re.split(r"^@[A-Za-z0-9_'.]+\n", out, flags=re.M)[1:]
+names = "|".join(re.escape(e["lemma"]) for e in spec["theorems"])
+chunks = re.split(r"^@?(?:" + names + r")\n", out, flags=re.M)[1:]
 assert len(chunks) == len(spec["theorems"]), (len(chunks), len(spec["theorems"]))
 body = f"(** {spec['title']}\n{spec['doc']} *)\n" + hdr + "\n"
 for e, ch in zip(spec["theorems"], chunks):
@@ -26,7 +27,7 @@ for e, ch in zip(spec["theorems"], chunks):
     name = f"{spec['pid']}_{e['name']}"
     if e.get("comment"):
         body += f"(** {e['comment']} *)\n"
-    body += f"Theorem {name} :\n  {ty}.\nProof. exact @{e['lemma']}. Qed.\nPrint Assumptions {name}.\n\n"
+    body += f"Theorem {name} :\n  {ty}.\nProof. exact {e.get('at', '@')}{e['lemma']}. Qed.\nPrint Assumptions {name}.\n\n"
 path = f"{COQ}/theories/Properties/{spec['pid']}.v"
 open(path, "w").write(body)
 r = subprocess.run(["coqc", "-Q", "theories", "Prtpy", "-o", "/root/scratch/mkprop_out/" + spec["pid"] + ".vo", path], cwd=COQ, capture_output=True, text=True)
